@@ -590,4 +590,34 @@ def run(chk):
     if not ok_o:
         chk.violation(r_ep, "rstep_offset", "ExtESmry::open_esmry no longer records the stream position immediately before the header that is then checked to be RSTEP: every vector position computed from it is shifted", oe["file"], st_o[pos_i[0]]["l"] if pos_i else oe["l"])
 
+    # ---- C10.stale: a derived ESMRY file of an earlier run never survives the start of a new run
+    r_st = chk.rule("C10.stale", "ESmry::make_esmry_file refuses to replace an existing <CASE>.ESMRY (returns false when the file exists); therefore the summary writer removes an existing <CASE>.ESMRY when it is constructed, whatever its options: the removal is guarded by the existence of that file only - otherwise the readers are served the previous run's series", floor=2)
+    mk = fx.fn1("Opm::EclIO::ESmry::make_esmry_file")
+    refuse = [n for n in walk(mk["body"]) if n["k"] == "If" and any(x["k"] == "Call" and (x.get("fn") or "").endswith("fileExists") or meth(x)[0] == "exists" or (x["k"] == "Call" and (x.get("fn") or "").endswith("filesystem::exists")) for x in walk(n["cond"])) and any(r_["k"] == "Return" for r_ in stmt_list(n["then"]))]
+    chk.instance(r_st, "converter", sample=dict(refuses_existing_file=bool(refuse)))
+    ctor = [f for f in fx.fns if f["file"].endswith("Summary.cpp") and f.get("body") and f["n"] == "SummaryImplementation" and any(x["k"] == "Str" and x["v"] == "ESMRY" for x in walk(f["body"]))]
+    if len(ctor) != 1:
+        raise core.AnalysisBroken("SummaryImplementation constructor (the one that names the ESMRY file) not found: %d" % len(ctor))
+    ctor = ctor[0]
+    fnv = [v["n"] for n in walk(ctor["body"]) if n["k"] == "Decl" for v in n["vars"] if isinstance(v.get("init"), dict) and any(x["k"] == "Str" and x["v"] == "ESMRY" for x in walk(v["init"]))]
+    pmc = {}
+    for x in walk(ctor["body"]):
+        for ch in children(x):
+            pmc[id(ch)] = x
+    rm = [n for n in walk(ctor["body"]) if n["k"] == "Call" and (n.get("fn") or "").endswith("filesystem::remove") and any(y["k"] == "Ref" and y["n"] in fnv for y in walk(n))]
+    guards = []
+    for r_ in rm:
+        p_ = pmc.get(id(r_))
+        child = r_
+        while p_ is not None:
+            if p_["k"] == "If" and any(x is child for x in walk(p_["then"])):
+                guards.append(p_["cond"])
+            if p_["k"] == "If" and p_.get("else") is not None and any(x is child for x in walk(p_["else"])):
+                guards.append({"k": "Un", "op": "!", "c": [p_["cond"]]})
+            child, p_ = p_, pmc.get(id(p_))
+    foreign = [show(g)[:80] for g in guards if any(y["k"] == "Ref" and y.get("d") in ("Parm", "Var") and y["n"] not in fnv for y in walk(g)) or any(y["k"] == "Mem" for y in walk(g))]
+    chk.instance(r_st, "writer", sample=dict(file_variable=fnv, removals=len(rm), guards=[show(g)[:80] for g in guards]))
+    if refuse and (len(rm) != 1 or foreign):
+        chk.violation(r_st, "writer", "the summary writer %s; make_esmry_file() does not overwrite an existing ESMRY file, so after a re-run in the same directory the conversion does nothing and ExtESmry returns the previous run's vectors, time axis and report steps" % ("no longer removes an existing <CASE>.ESMRY when it starts" if not rm else "removes an existing <CASE>.ESMRY only under the additional condition %s" % foreign), ctor["file"], rm[0]["l"] if rm else ctor["l"])
+
     chk.assumptions += ["the positional seek arithmetic of ESmry::loadData / ExtESmry is not analysed (runtime quantities)"]
